@@ -12,19 +12,20 @@ from common import *
 
 ID = 'C03'
 COQ_FILES = ['Model/Distance.v', 'Proofs/DistanceBase.v', 'Proofs/DistanceFloyd.v', 'Proofs/DistanceBin.v',
-             'Proofs/DistanceOther.v', 'Properties/C03.v']
+             'Proofs/DistanceOther.v', 'Proofs/DistanceReach.v', 'Properties/C03.v']
 THEOREMS = ['C03_floyd_correct', 'C03_floyd_diag_zero', 'C03_floyd_reach_iff_finite', 'C03_floyd_hops_min_path',
-            'C03_floyd_transforms', 'C03_distance_bin_correct', 'C03_distance_bin_diag_zero',
-            'C03_distance_wei_partial', 'C03_distance_wei_diag_zero', 'C03_breadthdist_partial',
-            'C03_breadthdist_reach_flag', 'C03_reachdist_flag_partial',
-            'C03_agree_floyd_bin', 'C03_charpath_mean', 'C03_charpath_mean_inverse', 'C03_efficiency_bin_mean_inverse',
-            'C03_efficiency_wei_mean_inverse', 'C03_rout_efficiency_mean_inverse']
+            'C03_floyd_transforms', 'C03_distance_bin_correct', 'C03_distance_bin_diag_zero', 'C03_distance_bin_inf_iff',
+            'C03_agree_floyd_bin', 'C03_agree_any', 'C03_distance_wei_partial', 'C03_distance_wei_diag_zero',
+            'C03_breadthdist_partial', 'C03_breadthdist_reach_flag', 'C03_breadthdist_selfloop_refuted',
+            'C03_reachdist_partial', 'C03_reachdist_flag_partial', 'C03_offdiag_pairs', 'C03_charpath_mean', 'C03_charpath_mean_inverse',
+            'C03_efficiency_bin_mean_inverse', 'C03_efficiency_wei_mean_inverse', 'C03_rout_efficiency_mean_inverse']
 RULE = ('binary and length matrices, directed and undirected, n=1..8: exhaustive (all digraphs n<=3 quick / n<=4 thorough, '
         'all undirected graphs n<=4 quick / n<=5 thorough) + structured families (ER at 4 densities, ring, star, path, complete, '
         'disjoint unions, isolated nodes, directed cycle + chords, tree + chords) with integer lengths from {1},{1,2},{1..4} '
         '(many exact ties); inv transform on dyadic weights (exact) and on {1,2,3} (tolerance); log transform on weights '
         '2^-k in (0,1] (tolerance). non-trivial = at least one finite off-diagonal distance; distinct by hash of (kind, matrix)')
-ASSUMES = ['lengths are small integers or dyadic rationals, so every sum/comparison the model treats as exact is exact in binary64; '
+ASSUMES = ['the theorems are over exact rationals: on lengths that are NOT exact in binary64 (1/3, k*ln 2) rounding can separate exactly tied alternatives — one known finding (edge-count-tie) lives exactly there',
+           'lengths are small integers or dyadic rationals, so every sum/comparison the model treats as exact is exact in binary64; '
            'results of 1/x and -log x are compared with relative tolerance 1e-9',
            'zero diagonal (no self-connections) in the main stream; self-loops are probed in a separate stream',
            'weights strictly positive; log transform on weights in (0,1]']
@@ -299,8 +300,32 @@ def check_R(ctx, fn, R, D, dist, case):
     return True
 
 
-def check_hops(ctx, fn, B, E, dist, case, exact=True):
-    """edge-count output = number of edges of SOME minimum-length path"""
+def follow_pmat(P, s, t, n):
+    q = [s]
+    while q[-1] != t and len(q) <= n:
+        q.append(int(P[q[-1], t]))
+    return q if q[-1] == t else None
+
+
+def tie_signature(Hh, P, s, t, n, isedge, elen, d):
+    """Signature of the known rounding defect of distance_wei_floyd (only meaningful for lengths that are not
+    exact in binary64): Pmat encodes a valid route s->t whose length is the minimum within tolerance, but
+    hops[s,t] counts the edges of a different, exactly-equally-long alternative (a tie that rounding broke)."""
+    q = follow_pmat(P, s, t, n)
+    if q is None or len(q) - 1 == Hh[s, t]:
+        return None
+    if any(not isedge(a, b) for a, b in zip(q, q[1:])):
+        return None
+    tot = sum(elen(a, b) for a, b in zip(q, q[1:]))
+    return q if close(tot, d, False) else None
+
+
+TIE_KEY = 'distance_wei_floyd[rounded-lengths]:edge-count-tie'
+
+
+def check_hops(ctx, fn, B, E, dist, case, exact=True, tie=None):
+    """edge-count output = number of edges of SOME minimum-length path.
+    tie=(P, isedge, elen): rounded-length regime, recognise the known tie defect under its own key"""
     n = len(dist)
     for s in range(n):
         for t in range(n):
@@ -314,6 +339,12 @@ def check_hops(ctx, fn, B, E, dist, case, exact=True):
             h = B[s, t]
             good = float(h).is_integer() and 1 <= h < len(E[s]) and close(E[s][int(h)][t], dist[s][t], exact)
             if not good:
+                if tie is not None and not exact:
+                    q = tie_signature(B, tie[0], s, t, n, tie[1], tie[2], dist[s][t])
+                    if q is not None:
+                        ctx.fail(TIE_KEY, 'pair (%d,%d): hops=%r but the route encoded by Pmat %s has %d edges (equal-length alternatives separated by rounding)'
+                                 % (s, t, float(h), q, len(q) - 1), case)
+                        continue
                 ctx.check(False, fn + ':edge-count', 'pair (%d,%d): reported %r edges but no minimum-length (%s) path has that many'
                           % (s, t, float(h), dist[s][t]), case)
                 return False
@@ -439,7 +470,8 @@ def do_weighted(ctx, bct, W, fam, B_):
         okp = all(fclose(er[s, t], (F(1) / F(dist[s][t]) if dist[s][t] != INF else 0) if s != t else 0) for s in range(n) for t in range(n))
         ctx.check(okp, 'rout_efficiency:pairwise', 'Erout is not 1/distance off the diagonal', case)
         B_.add('rout 0 ' + enc_mat(W, enc_q) + ' 0', 'rout', case, (ge, er))
-        l_, e_ = call(bct.charpath, Dw.copy())[:2]
+        Dt = np.array([[0.0 if s == t else float(dist[s][t]) for t in range(n)] for s in range(n)])
+        l_, e_ = call(bct.charpath, Dt)[:2]
         ctx.check(fclose(l_, lam), 'charpath:mean', 'lambda=%r, mean distance=%s' % (float(l_), lam), case)
         ctx.check(fclose(e_, eff), 'charpath:mean-inverse', 'efficiency=%r, mean inverse=%s' % (float(e_), eff), case)
     return dist, E
@@ -457,7 +489,8 @@ def do_inv(ctx, bct, W, fam, B_, exact):
     ctx.count('inv:' + ('exact' if exact else 'tolerance')); ctx.count('n=%d' % n)
     S, Hh, P = call(bct.distance_wei_floyd, Wn.copy(), transform='inv')
     check_D(ctx, 'distance_wei_floyd[inv]', S, dist, case, exact=exact)
-    check_hops(ctx, 'distance_wei_floyd[inv]', Hh, E, dist, case, exact=exact)
+    check_hops(ctx, 'distance_wei_floyd[inv]', Hh, E, dist, case, exact=exact,
+               tie=(P, lambda a, b: W[a][b] != 0, lambda a, b: L[a][b]))
     B_.add('floyd 1 ' + enc_mat(W, enc_q) + ' 0', 'floyd', case, (S, Hh, P, exact))
     if n >= 2:
         off, lam, eff = mean_clauses(ctx, dist, n)
@@ -486,7 +519,8 @@ def do_log(ctx, bct, W, fam, B_):
     ctx.count('log'); ctx.count('n=%d' % n)
     S, Hh, P = call(bct.distance_wei_floyd, Wn.copy(), transform='log')
     check_D(ctx, 'distance_wei_floyd[log]', np.abs(S), distf, case, exact=False)
-    check_hops(ctx, 'distance_wei_floyd[log]', Hh, Ef, distf, case, exact=False)
+    check_hops(ctx, 'distance_wei_floyd[log]', Hh, Ef, distf, case, exact=False,
+               tie=(P, lambda a, b: K[a][b] != 0, lambda a, b: 0.0 if K[a][b] == 'z' else K[a][b] * ln2))
     vals = sorted({x for row in W for x in row if x != 0})
     tbl = ' '.join([str(len(vals))] + [enc_q(v) + ' ' + enc_q(F(-math.log(float(v))) if v != 1 else F(0)) for v in vals])
     B_.add('floyd 2 ' + enc_mat(W, enc_q) + ' ' + tbl, 'floyd', case, (np.abs(S), Hh, P, False))
@@ -522,7 +556,7 @@ def exact_h_zero(K):
     return E
 
 
-def do_selfloop(ctx, bct, A):
+def do_selfloop(ctx, bct, A, B_):
     """separate stream: graphs WITH self-connections (outside the main domain; recorded findings are keyed narrowly)"""
     n = len(A)
     An = npm(A)
@@ -541,6 +575,13 @@ def do_selfloop(ctx, bct, A):
             s, t = bad[0]
             ctx.fail(fn + ':selfloop-min-length', 'graph with self-connection: pair (%d,%d) returned %r, true distance %s'
                      % (s, t, float(D[s, t]), dist[s][t]), case)
+    R, Db = call(bct.breadthdist, An.copy())
+    B_.add('breadthdist ' + enc_mat(A), 'rd', case, (np.asarray(R), Db))
+    Rr, Dr = call(bct.reachdist, An.copy())
+    B_.add('reachdist ' + enc_mat(A), 'rd', case, (np.asarray(Rr), Dr))
+    B_.add('dbin ' + enc_mat(A), 'dbin', case, call(bct.distance_bin, An.copy()))
+    S, Hh, P = call(bct.distance_wei_floyd, An.copy())
+    B_.add('floyd 0 ' + enc_mat(A, enc_q) + ' 0', 'floyd', case, (S, Hh, P, True))
 
 
 # ---------------------------------------------------------------- correspondence
@@ -614,6 +655,20 @@ def mat_eq(M, X, exact):
     return True
 
 
+WITNESS_LOG = [
+    [['0', '0', '0', '0', '1/4', '1', '0'], ['0', '0', '1/8', '0', '1/8', '0', '0'], ['0', '1/8', '0', '0', '0', '0', '0'],
+     ['0', '0', '0', '0', '0', '1/2', '0'], ['1/4', '1/8', '0', '0', '0', '0', '1'], ['1', '0', '0', '1/2', '0', '0', '0'],
+     ['0', '0', '0', '0', '1', '0', '0']],
+    [['0', '1/8', '0', '1', '1/4', '0', '1'], ['1/8', '0', '1/4', '0', '0', '0', '0'], ['0', '1/4', '0', '0', '0', '0', '0'],
+     ['1', '0', '0', '0', '0', '0', '1/4'], ['1/4', '0', '0', '0', '0', '1/4', '0'], ['0', '0', '0', '0', '1/4', '0', '0'],
+     ['1', '0', '0', '1/4', '0', '0', '0']],
+]
+WITNESS_INV = [
+    [['0', '0', '0', '2', '0', '0'], ['0', '0', '1', '0', '0', '0'], ['2', '0', '0', '0', '0', '0'],
+     ['0', '0', '0', '0', '3', '0'], ['0', '1', '0', '0', '0', '2'], ['0', '2', '0', '0', '0', '0']],
+]
+
+
 # ---------------------------------------------------------------- entry point
 def run(ctx):
     import bct
@@ -653,11 +708,16 @@ def run(ctx):
                     do_inv(ctx, bct, weighted(ctx, A, [F(1), F(2), F(3)]), fam, B_, exact=False)
                     do_log(ctx, bct, weighted(ctx, A, [F(1), F(1, 2), F(1, 4), F(1, 8)]), fam, B_)
                     do_log(ctx, bct, weighted(ctx, A, [F(1, 2), F(1, 4)]), fam, B_)
+    # 2b. pinned witnesses of the known rounding-tie defect of distance_wei_floyd (found by this harness, seeds 1 and 2)
+    for Wt in WITNESS_LOG:
+        do_log(ctx, bct, [[F(x) for x in row] for row in Wt], 'witness', B_)
+    for Wt in WITNESS_INV:
+        do_inv(ctx, bct, [[F(x) for x in row] for row in Wt], 'witness', B_, exact=False)
     # 3. self-connections (separate stream)
     for rep in range(ctx.scale(40, 300)):
         n = int(r.randint(2, 6))
         A = [[int(r.rand() < 0.4) for j in range(n)] for i in range(n)]
         A[int(r.randint(n))][int(r.randint(n))] = 1
         k = int(r.randint(n)); A[k][k] = 1
-        do_selfloop(ctx, bct, A)
+        do_selfloop(ctx, bct, A, B_)
     compare_models(ctx, B_)
